@@ -191,6 +191,9 @@ func (e *fnEnc) call(c *blockCtx, in ssa.Instruction, cc *ssa.CallCommon) []Term
 		}
 	}
 	e.curArgs = args
+	if e.lockCall(c, in, name, cc) {
+		return nil
+	}
 	e.effectObligations(c, in, "call", name)
 	// models of stdlib functions
 	if res, ok := e.stdlibModel(c, in, name, args, cc); ok {
